@@ -3,6 +3,7 @@
 # (/tmp/seed/<PROP>), store it under /verif/seeded/<PROP>/, then run the given checks (default: <PROP>) against /repo
 # with the change applied and undo it straight afterwards.
 set -u
+export VERIF_NO_EVIDENCE=1   # runs against a patched /repo say nothing about the unchanged tree
 P=$1; shift
 CHECKS=${@:-$P}
 BASE=${SEEDBASE:-/tmp/seed}; SUF=${SEEDSUFFIX:-}; W=$BASE/$P
